@@ -14,6 +14,12 @@ claim("C09",
  "static analysis: operator/lexer table extraction (AST+SSA abstract evaluation of rule factories), regex language tests, dominator-based interval reasoning over len()",
  "DESIGN.md §3 C09")
 
+claim("C15",
+ "Static comparator discipline: over every function reachable (call graph) from a sort.Interface Less method or the COMPARE/MIN/MAX handlers, and over the whole module, no ordering decision is taken from the sign of an integer difference (overflow => not antisymmetric); no explicit panic is reachable from a comparator; node arrays are sorted only with stable sort entry points; the sorted result is rebuilt from every element. Necessary conditions of antisymmetry, totality (no crash) and stability/permutation.",
+ TB + " Call graph: CHA (quick), VTA (thorough).",
+ "static analysis: SSA value-flow pattern (difference -> sign test, across calls), call-graph reachability of panic, who-may-call on sort entry points, control-dependence of the rebuild loop",
+ "DESIGN.md §3 C15")
+
 na = {
  "C01": "whole-property quantifies over runtime values of all programs x documents; no structural clause with detection value beyond what C09/C11 already check (DESIGN.md §3 C01)",
 }
